@@ -1256,6 +1256,10 @@ def describe_place(body, place, depth=0):
                 base = describe_rvalue(body, d[3], depth + 1)
             elif d[0] == "call":
                 base = describe_call(body, d[2], depth + 1)
+                # a named variable initialised by an argument-less constructor (`HashMap::new()`)
+                # is better described by its name: it is state, not an expression
+                if not d[2].args and body.var_name(local):
+                    base = body.var_name(local)
     skip_first = False
     if base is None:
         base = body.var_name(local)
